@@ -6,13 +6,16 @@
   `Discovery` dispatch table are the generated `Oryx.Gen.Amf0.*`. Core Lean only.
 
   Public API (reused by the RTMP packet layer):
-    `Val`, `Props` (mutual), `Props.length/get/set/append/ofList/toList`,
-    `size : Val → Nat`, `sizeP : Props → Nat`,
-    `encode : Val → Bytes`, `encodeP : Props → Bytes`,
-    `decodeVal : (fuel : Nat) → Bytes → Res (Val × Bytes)`  (value, bytes after it),
-    `decode : Bytes → Res (Val × Bytes)` (= `decodeVal (len+1)`),
-    `wf : Val → Bool`, `Val.WF`, `Props.WF`,
-    `costV`, `cost` (instrumented cost with the `Size()` re-walk charged).
+    `Val` (num bits | bool | str | null | undef | obj ps | ecma count ps | strict ps | eof), `Props` (nil | cons k v tl)
+    — a mutual pair with `DecidableEq`; `Props.length/keys/toList/ofList/append/get/has/replace/set`;
+    `size : Val → Nat`, `sizeP : Props → Nat`, `utf8Size`;
+    `encode : Val → Bytes`, `encodeP : Props → Bytes`, `utf8Enc`;
+    `decodeVal : (fuel : Nat) → Bytes → Res (Val × Bytes)` (value, bytes after it; `fuel > length` suffices),
+    `decodeProps`, `decodeElems`, `utf8Dec`, `decode : Bytes → Res (Val × Bytes)` (= `decodeVal (len+1)`);
+    `wf : Val → Bool`, `wfP`, `Val.WF`, `Props.WF` (decidable);
+    `walk`, `costV`, `cost`, `nest` (instrumented cost with the `Size()` re-walk charged).
+  Key facts (Oryx/Proofs/Amf0*.lean): `encode_length`, `decode_good` (ok ⇒ size ≤ len ∧ rest = drop size),
+  `rtVal` (round trip at any sufficient fuel), `decode_ne_panic`, `decode_wf`.
 -/
 import Oryx.Base.Bytes
 import Oryx.Gen.Amf0
